@@ -107,11 +107,13 @@ func ViolationCount() int {
 	return n
 }
 
-func Cap(format string, a ...any)    { emit(map[string]any{"t": "cap", "msg": fmt.Sprintf(format, a...)}) }
-func Broken(format string, a ...any) { emit(map[string]any{"t": "broken", "msg": fmt.Sprintf(format, a...)}) }
-func Log(format string, a ...any)    { emit(map[string]any{"t": "log", "msg": fmt.Sprintf(format, a...)}) }
-func Set(k string, v any)            { emit(map[string]any{"t": "set", "k": k, "v": v}) }
-func AddInt(k string, n int64)       { emit(map[string]any{"t": "addint", "k": k, "n": n}) }
+func Cap(format string, a ...any) { emit(map[string]any{"t": "cap", "msg": fmt.Sprintf(format, a...)}) }
+func Broken(format string, a ...any) {
+	emit(map[string]any{"t": "broken", "msg": fmt.Sprintf(format, a...)})
+}
+func Log(format string, a ...any) { emit(map[string]any{"t": "log", "msg": fmt.Sprintf(format, a...)}) }
+func Set(k string, v any)         { emit(map[string]any{"t": "set", "k": k, "v": v}) }
+func AddInt(k string, n int64)    { emit(map[string]any{"t": "addint", "k": k, "n": n}) }
 
 func Done() {
 	Nontrivial.Flush()
